@@ -116,7 +116,7 @@ ilu_zpivotL(
     pivmax = -1.0;
     pivptr = nsupc;
     diag = SLU_EMPTY;
-    old_pivptr = nsupc;
+    old_pivptr = SLU_EMPTY;
     ptr0 = SLU_EMPTY;
     for (isub = nsupc; isub < nsupr; ++isub) {
         if (marker[lsub_ptr[isub]] > jcol)
@@ -191,6 +191,7 @@ ilu_zpivotL(
 	thresh = u * pivmax;
 
 	/* Choose appropriate pivotal element by our policy. */
+	if ( *usepr && old_pivptr == SLU_EMPTY ) *usepr = 0; /* remembered row not in this column */
 	if ( *usepr ) {
 	    switch (milu) {
 		case SMILU_1:
